@@ -140,7 +140,9 @@ def build_ocaml():
         return False, out, time.time() - t0
     for s in srcs:
         shutil.copy(s, d)
-    order = ['sexp.ml', 'conv.ml'] + [os.path.basename(s) for s in srcs if os.path.basename(s) not in ('sexp.ml', 'conv.ml', 'modelrun.ml')] + ['modelrun.ml']
+    rest = [os.path.basename(s) for s in srcs if os.path.basename(s) not in ('sexp.ml', 'conv.ml', 'modelrun.ml')]
+    # plain libraries (e.g. sha256.ml) before the <name>run.ml handler files that may use them
+    order = ['sexp.ml', 'conv.ml'] + [x for x in rest if not x.endswith('run.ml')] + [x for x in rest if x.endswith('run.ml')] + ['modelrun.ml']
     rc, out2, _ = sh('ocamlfind ocamlopt -O2 -package zarith -linkpkg -w -a model.mli model.ml %s -o modelrun 2>&1 || ocamlfind ocamlopt -package zarith -linkpkg -w -a model.mli model.ml %s -o modelrun' % (' '.join(order), ' '.join(order)), cwd=d, timeout=900)
     return rc == 0, out + out2, time.time() - t0
 
